@@ -141,6 +141,30 @@ func (fx *FnCtx) assumeAfterAssert(name, goal string) string {
 	return goal
 }
 
+// calleeRegion: is the clause `rest` of callee `key` excused by a known finding? Then its region, evaluated in the
+// callee's pre-state at this call ("" = everywhere).
+func (fx *FnCtx) calleeRegion(key, rest string, pre *Env) (string, bool) {
+	d := activeDriver
+	if d == nil {
+		return "", false
+	}
+	full := fx.pkg.Name + ":" + key + ":" + rest
+	for _, k := range d.known {
+		if k.Status != "known" || !matchObligation(full, k) || !d.witnessStillFails(k) {
+			continue
+		}
+		if k.Region == "" || k.Region == "true" {
+			return "", true
+		}
+		e, err := parseSpecExpr(k.Region)
+		if err != nil {
+			fx.fail("known finding %s: bad region: %v", k.ID, err)
+		}
+		return fx.specBool(pre, e), true
+	}
+	return "", false
+}
+
 func matchObligation(name string, k KnownFinding) bool {
 	// name = "<target>:<func>:<rest>"; k.Obligation = "<func>:<rest>" (any target) or full name
 	if name == k.Obligation {
